@@ -71,7 +71,7 @@ CLAIMED = {
              "exported exactly, in order, with its direction; inner type and padding handling included), C01_tls13_flight (a direction's encrypted handshake flight cut into "
              "records at ANY bytes -- grouped or fragmented -- switches that direction to its application keys exactly at its Finished, other direction untouched), "
              "C01_tls13_connection (server flight, client flight, then any application history: exactly the application contents are exported), C01_fresh_decryptor (the "
-             "premises are what Decryptor.__init__ yields from a complete key set); TLS 1.2 AEAD and ChaCha20-Poly1305: C01_tls12_aead_session / C01_tls12_chacha_session (behind the "
+             "premises are what Decryptor.__init__ yields from a complete key set), C01_tls13_ccs_inert (middlebox-compatibility ChangeCipherSpec records change nothing); TLS 1.2 AEAD and ChaCha20-Poly1305: C01_tls12_aead_session / C01_tls12_chacha_session (behind the "
              "ServerHello, from the ChangeCipherSpec records on: each direction's ChangeCipherSpec, then its Finished and application records in any mix, the directions "
              "interleaved in any way -- exactly the application contents are exported as application data, in order; handshake records and ChangeCipherSpec only as metadata), "
              "and the same for RC4, CBC with explicit IVs and CBC with chained IVs (C01_rc4_session, C01_cbc_explicit_session, C01_cbc_chained_session: instances of one generic "
